@@ -1,5 +1,5 @@
 (* Proofs/SrcCacheTable.v — the tables parsed on every run from the setters of Rectangle, Circle, Polygon, Lanelet,
-   TrajectoryPrediction and Obstacle (Gen/Src_cachetable.v) pass the check of Model/CacheTable.v (evaluated by the
+   TrajectoryPrediction, Obstacle and TrafficLightCycle (Gen/Src_cachetable.v) pass the check of Model/CacheTable.v (evaluated by the
    kernel), so by Proofs/CacheTable.v every history of calls of those setters and of queries leaves every derived value
    equal to what recomputation from the current attributes gives, and every query answers what the object freshly built
    from the current attributes answers — for every way [compute] of deriving the values that reads only the attributes
@@ -20,6 +20,9 @@ Lemma src_trajectory_prediction_ok :
   forallb (setter_ok src_trajectory_prediction_caches src_trajectory_prediction_deps) src_trajectory_prediction_setters = true.
 Proof. vm_compute. reflexivity. Qed.
 Lemma src_obstacle_ok : forallb (setter_ok src_obstacle_caches src_obstacle_deps) src_obstacle_setters = true.
+Proof. vm_compute. reflexivity. Qed.
+Lemma src_traffic_light_cycle_ok :
+  forallb (setter_ok src_traffic_light_cycle_caches src_traffic_light_cycle_deps) src_traffic_light_cycle_setters = true.
 Proof. vm_compute. reflexivity. Qed.
 
 (* the statement for one class, given its table *)
@@ -54,6 +57,15 @@ Theorem src_trajectory_prediction_coherent :
 Proof. exact (class_statement_of_ok _ _ _ src_trajectory_prediction_ok). Qed.
 Theorem src_obstacle_coherent : class_statement src_obstacle_caches src_obstacle_deps src_obstacle_setters.
 Proof. exact (class_statement_of_ok _ _ _ src_obstacle_ok). Qed.
+Theorem src_traffic_light_cycle_coherent :
+  class_statement src_traffic_light_cycle_caches src_traffic_light_cycle_deps src_traffic_light_cycle_setters.
+Proof. exact (class_statement_of_ok _ _ _ src_traffic_light_cycle_ok). Qed.
+(* the setters of a cycle as they were before the repair of round 3 (the memo of the cumulative durations was kept): refused *)
+Example cycle_setter_without_drop_refused :
+  length src_traffic_light_cycle_setters = 3 /\
+  setter_ok src_traffic_light_cycle_caches src_traffic_light_cycle_deps {| s_attr := 1; s_main := [EStore]; s_tail := [] |} = false /\
+  setter_ok src_traffic_light_cycle_caches src_traffic_light_cycle_deps {| s_attr := 2; s_main := [EStore]; s_tail := [] |} = true.
+Proof. vm_compute. repeat split; reflexivity. Qed.
 
 (* the tables are not empty, and the check refuses the setters as they were before the repairs (store, nothing else) *)
 Example tables_nonvacuous :
